@@ -25,6 +25,7 @@ def rule_CAP1(ctx, producer=NS + 'GravityModel::Circle', consumer=NS + 'GravityC
     pf = pf[0]
     fl = ctx.flow(pf)
     # the constructor call of the consumer inside the producer
+    need_scalar = {}    # ctor param index -> bit sets under which a scalar is a number (NaN otherwise)
     need = {}           # ctor param index -> set of bit numbers (of the caps value passed to the ctor)
     grad = {}           # ctor param index -> bit numbers under which the engine is built with a gradient
     ctor_usr = None
@@ -54,14 +55,55 @@ def rule_CAP1(ctx, producer=NS + 'GravityModel::Circle', consumer=NS + 'GravityC
                         ks.add(hit[0])
                     alts.append(frozenset(ks))
                 return alts
+            def bits_of_cond(cond):
+                """alternative bit sets (of the caps value passed to the constructor) under which cond holds: either from
+                the condition's DNF or, when bits were conditionally cleared before, by comparing the bit vector of
+                `caps & CONST` with that of the constructor argument bit by bit."""
+                pos, neg = fl.cond2(cond, env)
+                alts = to_bits(pos)
+                if alts:
+                    return alts
+                cn = pf.nodes[pf.strip_casts(cond)]
+                while cn['k'] in ('ImplicitCastExpr', 'ParenExpr') and cn['ch']:
+                    cn = pf.nodes[pf.strip_casts(cn['ch'][0])]
+                inner = None
+                if cn['k'] == 'BinaryOperator' and cn.get('op') == '&':
+                    inner = pf.strip_casts(cond)
+                    while pf.nodes[inner]['k'] in ('ImplicitCastExpr', 'ParenExpr'):
+                        inner = pf.strip_casts(pf.nodes[inner]['ch'][0])
+                elif cn['k'] == 'BinaryOperator' and cn.get('op') == '!=' and 'cv' in pf.nodes[pf.strip(cn['ch'][1])] and \
+                        int(pf.nodes[pf.strip(cn['ch'][1])]['cv']) == 0:
+                    inner = pf.strip_casts(cn['ch'][0])
+                if inner is None:
+                    return None
+                bv = fl.eval_bv(inner, env)
+                out = []
+                for kbit in range(len(bv.bits)):
+                    if bv.bits[kbit] == FALSE:
+                        continue
+                    if bv.bits[kbit] != caps_bv.bits[kbit]:
+                        return None
+                    out.append(frozenset([kbit]))
+                return out or None
             for ai, a in enumerate(n['args']):
                 an = pf.nodes[pf.strip_casts(a)]
                 while an['k'] in ('MaterializeTemporaryExpr', 'ImplicitCastExpr', 'CXXBindTemporaryExpr') and an['ch']:
                     an = pf.nodes[pf.strip_casts(an['ch'][0])]
+                if an['k'] == 'DeclRefExpr' and an.get('rk') == 'local':
+                    # a local defined once by `cond ? value : NaN`
+                    inits = [d['init'] for _i, dn in pf.all_nodes() if dn['k'] == 'DeclStmt' for d in dn['decls']
+                             if d['d'] == an['d'] and d.get('init', -1) >= 0]
+                    reassigned = any(m['k'] in ('BinaryOperator', 'CompoundAssignOperator') and m.get('op', '').endswith('=')
+                                     and m['op'] not in ('==', '!=', '<=', '>=')
+                                     and pf.nodes[pf.strip(m['ch'][0])].get('d') == an['d'] for _i, m in pf.all_nodes())
+                    inits = sorted(set(inits))
+                    if len(inits) == 1 and not reassigned:
+                        an = pf.nodes[pf.strip_casts(inits[0])]
+                        while an['k'] in ('ParenExpr', 'ImplicitCastExpr') and an['ch']:
+                            an = pf.nodes[pf.strip_casts(an['ch'][0])]
                 if an['k'] != 'ConditionalOperator':
                     continue
-                pos, neg = fl.cond2(an['cond'], env)
-                alts = to_bits(pos)
+                alts = bits_of_cond(an['cond'])
                 if not alts:
                     continue
                 # is the else arm a default-constructed engine?
@@ -70,6 +112,9 @@ def rule_CAP1(ctx, producer=NS + 'GravityModel::Circle', consumer=NS + 'GravityC
                 while (en['k'] in ('MaterializeTemporaryExpr', 'ImplicitCastExpr', 'CXXBindTemporaryExpr', 'CXXFunctionalCastExpr')
                        or (en['k'] == 'CXXConstructExpr' and len(en.get('args', [])) == 1)) and en['ch']:
                     en = pf.nodes[pf.strip_casts(en['ch'][0])]
+                if en['k'] == 'CallExpr' and (en.get('callee') or {}).get('q') == NS + 'Math::NaN':
+                    need_scalar[ai] = alts
+                    continue
                 if en['k'] in ('CXXTemporaryObjectExpr', 'CXXConstructExpr') and not en.get('args'):
                     need[ai] = alts
                     # gradient flag of the engine: last argument of X.Circle(..., gradp)
@@ -80,8 +125,7 @@ def rule_CAP1(ctx, producer=NS + 'GravityModel::Circle', consumer=NS + 'GravityC
                     if tn.get('callee') and tn.get('args'):
                         last = tn['args'][-1]
                         if 'cv' not in pf.nodes[pf.strip_casts(last)]:
-                            gp, gn = fl.cond2(last, env)
-                            ga = to_bits(gp)
+                            ga = bits_of_cond(last)
                             if ga:
                                 grad[ai] = ga
             break
@@ -93,6 +137,13 @@ def rule_CAP1(ctx, producer=NS + 'GravityModel::Circle', consumer=NS + 'GravityC
     # constructor parameter -> member
     member_bits = {}
     member_grad = {}
+    scalar_bits = {}
+    for it in ctor.d.get('inits', []):
+        if it.get('kind') == 'member' and it.get('init', -1) >= 0:
+            for j in ctor.walk(it['init']):
+                jn = ctor.nodes[j]
+                if jn['k'] == 'DeclRefExpr' and jn.get('rk') == 'param' and jn.get('pidx') in need_scalar:
+                    scalar_bits[it['m']] = need_scalar[jn['pidx']]
     for it in ctor.d.get('inits', []):
         if it.get('kind') != 'member' or it.get('init', -1) < 0:
             continue
@@ -105,6 +156,7 @@ def rule_CAP1(ctx, producer=NS + 'GravityModel::Circle', consumer=NS + 'GravityC
     if not member_bits:
         raise AnalysisBroken('CAP1: the constructor does not store the guarded engines in members')
     res.analysed['engines'] = {m: [sorted(x) for x in b] for m, b in member_bits.items()}
+    res.analysed['scalars'] = {m: [sorted(x) for x in b] for m, b in scalar_bits.items()}
     res.analysed['gradient_engines'] = {m: [sorted(x) for x in b] for m, b in member_grad.items()}
     nsites = 0
     for f in sorted(ctx.lib_fns(), key=lambda x: (x.file, x.line)):
@@ -139,4 +191,29 @@ def rule_CAP1(ctx, producer=NS + 'GravityModel::Circle', consumer=NS + 'GravityC
                 res.fail(f.q, m, f.loc(i), '%s is evaluated on a path that establishes only bits %s of _caps; %s %s it under '
                          'bits %s (otherwise a default-constructed engine returns 0)'
                          % (m, bad[2], producer.replace(NS, ''), bad[0], ' or '.join(str(sorted(x)) for x in bad[1])))
+    for f in sorted(ctx.lib_fns(), key=lambda x: (x.file, x.line)):
+        if f.cls != consumer or not f.cfg or f.is_ctor or not scalar_bits:
+            continue
+        if len([1 for _i, _n in f.all_nodes()]) < 12:
+            continue          # plain accessors
+        cfl = ctx.flow(f)
+        for i, n in f.all_nodes():
+            if n['k'] != 'MemberExpr' or not n.get('thisbase') or n.get('m') not in scalar_bits:
+                continue
+            alts = cfl.facts_at(i)
+            if not alts:
+                continue
+            nsites += 1
+            dnf = scalar_bits[n['m']]
+            bad = None
+            for a in alts:
+                have = {int(at.rsplit(':', 1)[1]) for at, pol in a if pol and at.startswith('b:this._caps:')}
+                if not any(alt <= have for alt in dnf):
+                    bad = sorted(have)
+            ok = bad is None
+            res.ob(ok, {'fn': f.q, 'member': n['m'], 'at': f.loc(i), 'needs_caps_bits': [sorted(x) for x in dnf]} if not ok else None)
+            if not ok:
+                res.fail(f.q, n['m'], f.loc(i), '%s is used on a path that establishes only bits %s of _caps; %s stores NaN in it '
+                         'unless bits %s were requested' % (n['m'], bad, producer.replace(NS, ''),
+                                                            ' or '.join(str(sorted(x)) for x in dnf)))
     return res, nsites
